@@ -35,7 +35,8 @@ CLAIMED = {
              'per-type length bound (regex types over all of Unicode, the others over domain D) z3 shows '
              'on every path that the converter returns the reference value or raises ValueError exactly '
              'when the reference does, that key normalisers are idempotent and that Registry.get '
-             'normalises names; float and timedelta run on an exact rational model of float() / '
+             'normalises names; 28 long inputs (a concrete prefix of 10-40 characters followed by 1-3 symbolic '
+             'characters) reach beyond the length bounds; float and timedelta run on an exact rational model of float() / '
              'datetime.timedelta (value within a tolerance, ValueError / TypeError classes exact); the regex '
              'languages (basic-key, identifier, dotted-name, dotted-suffix, and ipaddr-or-hostname restricted to '
              'colon-free strings) are additionally proved equal to reference regexes for strings of every '
@@ -122,7 +123,8 @@ CLAIMED = {
     'C15': dict(
         text='Metamorphic: for every balanced text shape up to 3 lines (thorough: plus a quarter of the 4-line '
              'shapes) of 3 (thorough 12) family schemas x each mechanical rewrite {whitespace, blank/comment lines, '
-             'case, empty-section form, key reordering, all composed} and hand-written (original, rewritten) text pairs - symbolic whitespace for '
+             'case, empty-section form, key reordering, all composed} and hand-written (original, rewritten) text pairs, plus a recursive '
+             'section type nested to a depth chosen by a z3 integer (1..24, thorough 48) - symbolic whitespace for '
              'indentation and trailing space, symbolic comment text, modelled upper/lower/swapcase of section '
              'types, names, define names, references and case-insensitive keys, both empty-section forms, '
              'reordered key lines - with shared symbolic tokens, z3 shows on every path that the real loader '
